@@ -22,11 +22,19 @@ def main(argv=None):
     prop = args.prop.upper()
     harness.ensure_deps()
     harness.setup_paths()
-    ctx = harness.Context(prop, args.tier, args.seed, LEVELS.get(prop, "exploration"))
-    ctx.replay = None
+    replay = None
     if args.replay:
+        # a replay file records the tier and seed of the run that found the violation: every workload is a
+        # deterministic function of (tier, seed), so re-running with them reproduces the witness
         with open(args.replay) as fh:
-            ctx.replay = json.load(fh)
+            replay = json.load(fh)
+        args.tier = replay.get("tier", args.tier)
+        args.seed = int(replay.get("seed", args.seed))
+        print("replaying %s: tier=%s seed=%d (%d violations recorded, first: %s)"
+              % (prop, args.tier, args.seed, replay.get("n_violations", 0),
+                 (replay.get("violations") or [{}])[0].get("what")))
+    ctx = harness.Context(prop, args.tier, args.seed, LEVELS.get(prop, "exploration"))
+    ctx.replay = replay
     try:
         mod = importlib.import_module("checks.%s" % prop.lower())
         mod.run(ctx)
